@@ -1,7 +1,19 @@
-(* C17 (PARTIAL): the parameter character set is exactly the documented one, a byte outside it
-   inside a name is rejected at that byte, known URI parameters are classified case-insensitively.
-   The list splitting clauses are checked by the correspondence run and the render/parse oracle only. *)
-From Sipsp Require Import Harness Misc.
+(* C17: parameter-list parsing is faithful.
+   PROVED for the model: the parameter character set is exactly the documented one; a byte outside it
+   inside a name is rejected at that byte; known URI parameters are classified case-insensitively;
+   ParseTokenParam against the grammar, completeness (TokSpec.v): for every flag set, a parameter
+   written name "=" value (name and value non-empty runs of plain parameter bytes) is reported with
+   exactly the name, value and whole-parameter extents, and the verdict and offset say what ended it -
+   the separator followed by the next parameter (more values, offset of the next parameter's first
+   byte), the configured terminator (ok, offset of the terminator), or the end of the header line after
+   optional blanks (end of header, offset after the line); a parameter without value is allowed
+   (empty value).  Any offset / any preceding bytes: C17_param_then_next_param_at_any_offset, from
+   the C11 shift theorem.  The list wrappers count every parameter (capacity independence: C13) and
+   are crash free (C04).
+   PARTIAL: quoted values with escapes, white space and folds around "=" and the separators, empty
+   list items, the white-space-then-token terminator, and the converse direction (accepted => of
+   that shape) are not proved: render/parse oracle + correspondence (chunked too). *)
+From Sipsp Require Import Harness Misc HdrSpec TokSpec.
 Theorem C17_character_set : forall up c, tok_allowed up c = true <-> In c (allowed_set up).
 Proof. exact tok_allowed_spec. Qed.
 Theorem C17_bad_byte_in_name_rejected_there : forall f (rest : list byte) i s c,
@@ -11,3 +23,41 @@ Theorem C17_bad_byte_in_name_rejected_there : forall f (rest : list byte) i s c,
 Proof. exact name_badchar. Qed.
 Theorem C17_known_uri_parameters_case_insensitive : forall n, uri_param_resolve (map to_lower n) = uri_param_resolve n.
 Proof. exact uri_param_resolve_nocase. Qed.
+
+(* ---- ParseTokenParam against the grammar ----------------------------------------------------------------------------------------- *)
+Theorem C17_param_then_next_param : forall flags n0 name v0 value c tail,
+  plain flags n0 -> Forall (plain flags) name -> plain flags v0 -> Forall (plain flags) value -> plain flags c ->
+  let ln := nnat (length (n0 :: name)) in let lv := nnat (length (v0 :: value)) in
+  parse_tokparam flags ((n0 :: name) ++ 61 :: (v0 :: value) ++ tf_sep (tp_decode flags) :: c :: tail) 0 tokparam0
+  = Done (ln + 1 + lv + 1) EMoreValues (mktokparam (mkpf 0 (ln + 1 + lv)) (mkpf 0 ln) (mkpf (ln + 1) lv) PInitNxtVal).
+Proof. exact tp_spec_more. Qed.
+Theorem C17_param_without_value : forall flags n0 name c tail, plain flags n0 -> Forall (plain flags) name -> plain flags c ->
+  let ln := nnat (length (n0 :: name)) in
+  parse_tokparam flags ((n0 :: name) ++ tf_sep (tp_decode flags) :: c :: tail) 0 tokparam0
+  = Done (ln + 1) EMoreValues (mktokparam (mkpf 0 ln) (mkpf 0 ln) pf0 PInitNxtVal).
+Proof. exact tp_spec_novalue. Qed.
+Theorem C17_param_ended_by_terminator : forall flags n0 name v0 value t tail,
+  plain flags n0 -> Forall (plain flags) name -> plain flags v0 -> Forall (plain flags) value -> is_term_c flags t = true ->
+  let ln := nnat (length (n0 :: name)) in let lv := nnat (length (v0 :: value)) in
+  parse_tokparam flags ((n0 :: name) ++ 61 :: (v0 :: value) ++ t :: tail) 0 tokparam0
+  = Done (ln + 1 + lv) EOk (mktokparam (mkpf 0 (ln + 1 + lv)) (mkpf 0 ln) (mkpf (ln + 1) lv) PFIN).
+Proof. exact tp_spec_term. Qed.
+Theorem C17_param_ended_by_end_of_header : forall flags n0 name v0 value sp x tail,
+  plain flags n0 -> Forall (plain flags) name -> plain flags v0 -> Forall (plain flags) value ->
+  spaces sp -> is_sp x = false -> tf_ie (tp_decode flags) = false ->
+  let ln := nnat (length (n0 :: name)) in let lv := nnat (length (v0 :: value)) in
+  parse_tokparam flags ((n0 :: name) ++ 61 :: (v0 :: value) ++ sp ++ CR :: LF :: x :: tail) 0 tokparam0
+  = Done (ln + 1 + lv + nnat (length sp) + 2) EEOH (mktokparam (mkpf 0 (ln + 1 + lv)) (mkpf 0 ln) (mkpf (ln + 1) lv) PFIN).
+Proof. exact tp_spec_eoh. Qed.
+Theorem C17_param_then_next_param_at_any_offset : forall flags junk n0 name v0 value c tail,
+  plain flags n0 -> Forall (plain flags) name -> plain flags v0 -> Forall (plain flags) value -> plain flags c ->
+  let k := nnat (length junk) in let ln := nnat (length (n0 :: name)) in let lv := nnat (length (v0 :: value)) in
+  parse_tokparam flags (junk ++ (n0 :: name) ++ 61 :: (v0 :: value) ++ tf_sep (tp_decode flags) :: c :: tail) k tokparam0
+  = Done (k + (ln + 1 + lv + 1)) EMoreValues (mktokparam (mkpf k (ln + 1 + lv)) (mkpf k ln) (mkpf (k + (ln + 1)) lv) PInitNxtVal).
+Proof. exact tp_spec_more_at. Qed.
+(* the hypotheses are satisfiable: "tag=x7;lr" with the default flags *)
+Example C17_example :
+  parse_tokparam 0 [116;97;103;61;120;55;59;108;114] 0 tokparam0
+  = Done 7 EMoreValues (mktokparam (mkpf 0 6) (mkpf 0 3) (mkpf 4 2) PInitNxtVal).
+Proof. vm_compute. reflexivity. Qed.
+Print Assumptions C17_param_then_next_param_at_any_offset.
